@@ -157,3 +157,17 @@ CASES += [
                                 // omit choice
                                 right''', checks=['C20', 'C12', 'C13']),
 ]
+
+U = 'sudoku_gen/src/main.rs'
+CASES += [
+ dict(id='sudoku-box-mod', kind='fire', file=U, old='lt + ((l / root) * square + (l % root))', new='lt + ((l / root) * square + (l % square))', expect={'C17': 'list #4'}),
+ dict(id='sudoku-lt', kind='fire', file=U, old='let lt = (i * root) * square + (j * root);', new='let lt = (i * root) * square + j;', expect={'C17': 'list #4'}),
+ dict(id='sudoku-row-short', kind='fire', file=U, old='''            let vars = (0..square)
+                .map(|j| format!("_{}_is_{}", i * square + j, k))''', new='''            let vars = (1..square)
+                .map(|j| format!("_{}_is_{}", i * square + j, k))''', expect={'C17': 'list #2'}),
+ dict(id='sudoku-col-is-row', kind='fire', file=U, old='.map(|j| format!("_{}_is_{}", j * square + i, k))', new='.map(|j| format!("_{}_is_{}", i * square + j, k))', expect={'C17': 'missing family col'}),
+ dict(id='sudoku-hint-radix', kind='fire', file=U, old='if char::is_digit(ch, 10) {', new='if char::is_digit(ch, 16) {', expect={'C17': 'hints'}),
+ dict(id='sudoku-no-ws-strip', kind='fire', file=U, old='        .filter(|c| !c.is_whitespace())\n', new='        .filter(|c| *c != \'\\n\')\n', expect={'C17': 'whitespace'}),
+ dict(id='sudoku-commute', kind='silent', file=U, old='.map(|j| format!("_{}_is_{}", i * square + j, k))', new='.map(|j| format!("_{}_is_{}", j + square * i, k))', checks=['C17']),
+ dict(id='sudoku-inline-lt', kind='silent', file=U, old='lt + ((l / root) * square + (l % root))', new='(i * root + l / root) * square + (j * root + l % root)', checks=['C17']),
+]
